@@ -38,6 +38,12 @@ int redirect_parent(int *child, REPROC_STREAM stream)
     return errno == EBADF ? -EPIPE : -errno;
   }
 
+  // `fileno` only notices streams closed with `fclose`. A stream whose file
+  // descriptor was closed with `close` is just as absent.
+  if (fcntl(r, F_GETFD) < 0) {
+    return errno == EBADF ? -EPIPE : -errno;
+  }
+
   *child = r; // `r` contains the duplicated file descriptor.
 
   return 0;
